@@ -54,7 +54,8 @@ def run_case(case):
     aw = min_aw(pins, dw) + case["aw_extra"]
     from vmon.simkit import decoy
     decoy(rng, lambda: gpio.Peripheral(pin_count=pins, addr_width=aw, data_width=dw, input_stages=stages))
-    dut = gpio.Peripheral(pin_count=pins, addr_width=aw, data_width=dw, input_stages=stages)
+    from vmon.simkit import omit
+    dut = gpio.Peripheral(**omit(rng, "gpio.Peripheral", pin_count=pins, addr_width=aw, data_width=dw, input_stages=stages))
     from vmon.simkit import decoy_after
     other = decoy_after(rng, lambda: gpio.Peripheral(pin_count=max(1, pins - 1), addr_width=aw + 1, data_width=dw,
                                                      input_stages=(stages + rng.choice([1, 2, 3])) % 4))
